@@ -59,3 +59,44 @@ Proof.
   - apply N.leb_gt in E1. apply Z.leb_le in E2. lia.
   - rewrite Z2N.id by lia. reflexivity.
 Qed.
+
+(* BatchConfig.EnsureValid and ShutterApp.checkConfig, as read off the source on this run,
+   decide what the model's ensure_valid / check_config decide (for slices of Go-representable
+   length; the model's last conjunct is that side condition). *)
+Lemma ensure_valid_agrees c :
+  ensure_valid c =
+  gen_ensure_valid (Z.of_nat (List.length (c_keypers c))) (Z.of_N (c_threshold c)) &&
+  (Z.of_nat (List.length (c_keypers c)) <? two63).
+Proof.
+  unfold ensure_valid, gen_ensure_valid, two63.
+  set (n := Z.of_nat (List.length (c_keypers c))).
+  assert (Hn : n = Z.of_nat (List.length (c_keypers c))) by reflexivity.
+  destruct (Nat.eqb (List.length (c_keypers c)) 0) eqn:E0.
+  - apply Nat.eqb_eq in E0. replace (n =? 0) with true by (symmetry; apply Z.eqb_eq; lia). reflexivity.
+  - apply Nat.eqb_neq in E0. replace (n =? 0) with false by (symmetry; apply Z.eqb_neq; lia).
+    destruct (N.eqb (c_threshold c) 0) eqn:E1.
+    + apply N.eqb_eq in E1. rewrite E1. reflexivity.
+    + apply N.eqb_neq in E1. replace (Z.of_N (c_threshold c) =? 0) with false by (symmetry; apply Z.eqb_neq; lia).
+      cbn [negb andb].
+      destruct (n <? 9223372036854775808) eqn:E2.
+      * apply Z.ltb_lt in E2. rewrite (Z.mod_small n) by lia.
+        destruct (n <? Z.of_N (c_threshold c)); reflexivity.
+      * rewrite !andb_false_r. reflexivity.
+Qed.
+
+Lemma check_config_agrees s c lc :
+  last_opt (configs s) = Some lc ->
+  Z.of_nat (List.length (c_keypers c)) < two63 ->
+  check_config s c =
+  Some (gen_check_config (Z.of_nat (List.length (c_keypers c))) (Z.of_N (c_threshold c))
+                         (Z.of_N (c_act c)) (Z.of_N (c_index c)) (Z.of_N (c_act lc)) (Z.of_N (c_index lc))).
+Proof.
+  intros Hl Hlen. unfold check_config, gen_check_config. rewrite Hl, ensure_valid_agrees.
+  replace (Z.of_nat (List.length (c_keypers c)) <? two63) with true by (symmetry; apply Z.ltb_lt; exact Hlen).
+  rewrite andb_true_r.
+  destruct (gen_ensure_valid _ _); cbn [negb]; [|reflexivity].
+  destruct (c_act c <? c_act lc)%N eqn:E1; destruct (Z.of_N (c_act c) <? Z.of_N (c_act lc)) eqn:E2;
+    try (apply N.ltb_lt in E1); try (apply N.ltb_ge in E1); try (apply Z.ltb_lt in E2); try (apply Z.ltb_ge in E2); try lia; try reflexivity.
+  destruct (c_index c <=? c_index lc)%N eqn:E3; destruct (Z.of_N (c_index c) <=? Z.of_N (c_index lc)) eqn:E4;
+    try (apply N.leb_le in E3); try (apply N.leb_gt in E3); try (apply Z.leb_le in E4); try (apply Z.leb_gt in E4); try lia; reflexivity.
+Qed.
